@@ -122,6 +122,9 @@ def check_single(r, case):
             r.outcome("skip-plan-raised (C04's business)")
             continue
         states = guard(lambda: [observe_state(tr[0].previous_state)] + [observe_state(t.next_state) for t in tr])
+        if len(tr) >= 2:
+            # the tail of the trajectory is exported first (exporting must not change the triplets it is given)
+            guard(lambda: "".join(TrajectoryExporter.export(tr[1:])))
         text = guard(lambda: "".join(TrajectoryExporter.export(tr)))
         if isinstance(states, Raised) or isinstance(text, Raised):
             r.outcome("skip-export-raised (C04's business)")
@@ -153,6 +156,7 @@ def check_joint(r, case):
     w = world(case["domain"])
     agents = ["a", "b"]
     per_agent = {ag: [None] + [c for c in w.calls if c[1] and c[1][0] == ag] for ag in agents}
+    per_agent["a"] = per_agent["a"] + [c for c in w.calls if not c[1]]   # parameterless actions go into the first slot
     tags = [case["domain"], "joint"]
 
     def joint_steps(st):
